@@ -23,7 +23,7 @@ theorem step_send {S : System} {pre : Trace} {o : OSt} {f f' : FSt} {t : Tid} {c
     rfl
   · have hw := wg_frame g t (.send c) (f' := { f with nsend := upd f.nsend c (f.nsend c + 1) }) rfl
       (fun _ => nofun) (fun _ => nofun) (fun _ => nofun)
-    refine ⟨(g.release_step (dst := .msg c (o.nsend c)) cx hg nofun ?_ ?_).2, ?_, g.nr, ?_, g.ss, hw.1, hw.2⟩
+    refine ⟨(g.release_step (dst := .msg c (o.nsend c)) cx hg nofun ?_ ?_).2, ?_, g.nr, ?_, g.ss, hw.1, hw.2, rc_frame g t _ _ (fun _ h => h) (fun _ => nofun)⟩
     · intro k
       simp only [Exp, g.ns c, upd_self]
       have := g.le c
@@ -46,6 +46,7 @@ theorem step_send {S : System} {pre : Trace} {o : OSt} {f f' : FSt} {t : Tid} {c
       · intro _ _; rfl
       · intro _ _; exact ⟨rfl, rfl⟩
       · intro _ _; exact ⟨nofun, nofun⟩
+      · intro _ _; exact ⟨rfl, nofun⟩
     · intro c'
       show upd o.nsend c (o.nsend c + 1) c' = upd f.nsend c (f.nsend c + 1) c'
       by_cases hc : c' = c
@@ -58,12 +59,18 @@ theorem step_send {S : System} {pre : Trace} {o : OSt} {f f' : FSt} {t : Tid} {c
       · subst hc; rw [upd_self]; omega
       · rw [upd_ne _ _ _ _ hc]; exact this
 
-theorem step_close {S : System} (ok : S.OK) {pre : Trace} {o : OSt} {f f' : FSt} {t : Tid} {c : Obj}
+theorem step_close {S : System} {pre : Trace} {o : OSt} {f f' : FSt} {t : Tid} {c : Obj}
     {H H' : List Tok}
     (g : GoodT S pre o f) (cx : Ctx S pre t (.close c) H H') (hF : stepF f (t, .close c) = some f') :
     ∃ o', stepO S.sp o (t, .close c) = some o' ∧ GoodT S (pre ++ [(t, .close c)]) o' f' := by
-  have hf := stepF_close hF
+  obtain ⟨hcl, hf⟩ := stepF_close hF
   subst hf
+  -- nobody has received the close yet: a `recvC c` needs a closed channel
+  have hnr : ∀ u, Ev.recvC c ∉ proj pre u := by
+    intro u h
+    have := g.rc c u h
+    rw [hcl] at this
+    cases this
   have hE := cx.tE
   simp only [typeEv] at hE
   have hg := give_inv hE
@@ -72,9 +79,16 @@ theorem step_close {S : System} (ok : S.OK) {pre : Trace} {o : OSt} {f f' : FSt}
     exact release_ok o t _ _ (fun k hk => (g.at_thr cx k).2 (hg.1 k hk))
   · have hw := wg_frame g t (.close c) (f' := { f with closed := upd f.closed c true }) rfl
       (fun _ => nofun) (fun _ => nofun) (fun _ => nofun)
-    refine ⟨(g.release_step (dst := .clo c) cx hg nofun ?_ ?_).2, g.ns, g.nr, g.le, g.ss, hw.1, hw.2⟩
+    refine ⟨(g.release_step (dst := .clo c) cx hg nofun ?_ ?_).2, g.ns, g.nr, g.le, g.ss, hw.1, hw.2,
+      rc_frame g t (.close c) _ ?_ (fun _ => nofun)⟩
     · intro k
-      simp only [Exp, ok.close_empty c, List.not_mem_nil, or_false]
+      simp only [Exp, upd_self, hcl, true_and]
+      rw [mem_proj_snoc_of_ne pre t _ (.close c) (.recvC c) nofun]
+      constructor
+      · intro h; exact Or.inr h.2
+      · rintro (h | h)
+        · exact absurd h.1.1 (by simp)
+        · exact ⟨hnr _, h⟩
     · intro l hl1 hl2 k
       apply Exp_frame
       · exact thr_ne_of hl1
@@ -82,6 +96,15 @@ theorem step_close {S : System} (ok : S.OK) {pre : Trace} {o : OSt} {f f' : FSt}
       · intro _ _; rfl
       · intro _ _; exact ⟨rfl, rfl⟩
       · intro _ _; exact ⟨nofun, nofun⟩
+      · intro c' hl
+        subst hl
+        have hc : c' ≠ c := fun h => hl2 (by rw [h])
+        exact ⟨upd_ne _ _ _ _ hc, nofun⟩
+    · intro c' h
+      show upd f.closed c true c' = true
+      by_cases hc : c' = c
+      · subst hc; exact upd_self _ _ _
+      · rw [upd_ne _ _ _ _ hc]; exact h
 
 theorem step_unlock {S : System} {pre : Trace} {o : OSt} {f f' : FSt} {t : Tid} {m : Obj} {H H' : List Tok}
     (g : GoodT S pre o f) (cx : Ctx S pre t (.unlock m) H H') (hF : stepF f (t, .unlock m) = some f') :
@@ -96,7 +119,7 @@ theorem step_unlock {S : System} {pre : Trace} {o : OSt} {f f' : FSt} {t : Tid} 
     exact release_ok o t _ _ (fun k hk => (g.at_thr cx k).2 (hg.1 k hk))
   · have hw := wg_frame g t (.unlock m) (f' := { f with held := upd f.held m false }) rfl
       (fun _ => nofun) (fun _ => nofun) (fun _ => nofun)
-    refine ⟨(g.release_step (dst := .mtx m) cx hg nofun ?_ ?_).2, g.ns, g.nr, g.le, g.ss, hw.1, hw.2⟩
+    refine ⟨(g.release_step (dst := .mtx m) cx hg nofun ?_ ?_).2, g.ns, g.nr, g.le, g.ss, hw.1, hw.2, rc_frame g t _ _ (fun _ h => h) (fun _ => nofun)⟩
     · intro k
       simp only [Exp, upd_self, hheld, true_and]
       constructor
@@ -114,6 +137,7 @@ theorem step_unlock {S : System} {pre : Trace} {o : OSt} {f f' : FSt} {t : Tid} 
         exact upd_ne _ _ _ _ hm
       · intro _ _; exact ⟨rfl, rfl⟩
       · intro _ _; exact ⟨nofun, nofun⟩
+      · intro _ _; exact ⟨rfl, nofun⟩
 
 theorem step_spawn {S : System} {pre : Trace} {o : OSt} {f f' : FSt} {t u : Tid} {H H' : List Tok}
     (g : GoodT S pre o f) (cx : Ctx S pre t (.spawn u) H H') (hF : stepF f (t, .spawn u) = some f') :
@@ -132,7 +156,7 @@ theorem step_spawn {S : System} {pre : Trace} {o : OSt} {f f' : FSt} {t u : Tid}
     exact release_ok o t _ _ (fun k hk => (g.at_thr cx k).2 (hg.1 k hk))
   · have hw := wg_frame g t (.spawn u) (f' := { f with spawned := upd f.spawned u true }) rfl
       (fun _ => nofun) (fun _ => nofun) (fun _ => nofun)
-    refine ⟨(g.release_step (dst := .spw u) cx hg nofun ?_ ?_).2, g.ns, g.nr, g.le, ?_, hw.1, hw.2⟩
+    refine ⟨(g.release_step (dst := .spw u) cx hg nofun ?_ ?_).2, g.ns, g.nr, g.le, ?_, hw.1, hw.2, rc_frame g t _ _ (fun _ h => h) (fun _ => nofun)⟩
     · intro k
       simp only [Exp, upd_self, hsp, hst, true_and]
       constructor
@@ -150,6 +174,7 @@ theorem step_spawn {S : System} {pre : Trace} {o : OSt} {f f' : FSt} {t u : Tid}
         have hu : u' ≠ u := fun h => hl2 (by rw [h])
         exact ⟨upd_ne _ _ _ _ hu, rfl⟩
       · intro _ _; exact ⟨nofun, nofun⟩
+      · intro _ _; exact ⟨rfl, nofun⟩
     · intro u' h
       show upd f.spawned u true u' = true
       by_cases hu : u' = u
@@ -173,7 +198,7 @@ theorem step_wgDone {S : System} (ok : S.OK) {pre : Trace} {o : OSt} {f f' : FSt
   refine ⟨{ o with loc := moveL o.loc (S.sp.donePay w t) (.wgb w) }, ?_, ?_⟩
   · simp only [stepO]
     exact release_ok o t _ _ (fun k hk => (g.at_thr cx k).2 (hg.1 k hk))
-  · refine ⟨(g.release_step (dst := .wgb w) cx hg nofun ?_ ?_).2, g.ns, g.nr, g.le, g.ss, ?_, ?_⟩
+  · refine ⟨(g.release_step (dst := .wgb w) cx hg nofun ?_ ?_).2, g.ns, g.nr, g.le, g.ss, ?_, ?_, rc_frame g t _ _ (fun _ h => h) (fun _ => nofun)⟩
     · intro k
       simp only [Exp]
       constructor
@@ -194,6 +219,7 @@ theorem step_wgDone {S : System} (ok : S.OK) {pre : Trace} {o : OSt} {f f' : FSt
         subst hl
         refine ⟨nofun, fun h => hl2 ?_⟩
         cases h; rfl
+      · intro _ _; exact ⟨rfl, nofun⟩
     · intro w' hw'
       rw [waited_snoc_of_ne S pre t (.wgDone w) w' nofun] at hw'
       rw [cnt_proj_snoc_of_ne pre t _ (.wgDone w) (.wgAdd w') nofun]
